@@ -23,7 +23,8 @@ Lemmas ==
                           /\ ~Verify(PubKey(va), vz, bad, ok) /\ ~Verify(PubKey(va), vz, ok, bad)
                     /\ \A s \in {1, 2, N - 1} : ZPeriodic(PubKey(va), vz, va, s)
                     /\ \A s \in 1..(N - 1), r \in {1, 2, N - 1} : InfinityRejected(va, r, s)
-  /\ vz \in ZDeep => \A s \in 1..(N - 1) : VerifyIffRecoverable(vz, va, s)
+  /\ vz \in ZDeep => /\ \A s \in 1..(N - 1) : VerifyIffRecoverable(vz, va, s)
+                     /\ ValidAreNonceImages(va, vz)
 \* the retry path: from every nonce the chain k, NextNonce(k), .. reaches a usable signature within N-1 steps
 RECURSIVE Reaches(_, _, _, _)
 Reaches(d, z, k, fuel) == SigUsable(SigOf(d, z, k)) \/ (fuel > 0 /\ Reaches(d, z, NextNonce(k), fuel - 1))
